@@ -206,7 +206,7 @@ fn process_dir(
         {
             Err(err) => {
                 ret = 1;
-                writeln!(&mut stderr(), "Error: {err}").unwrap();
+                let _ = writeln!(&mut stderr(), "Error: {err}");
             }
             Ok(entry) => {
                 // WalkDir clamps min_depth to max_depth, and it never sees the entries
